@@ -11,6 +11,7 @@ import (
 	secp256k1 "gitlab.com/yawning/secp256k1-voi"
 	"gitlab.com/yawning/secp256k1-voi/internal/field"
 	"gitlab.com/yawning/secp256k1-voi/secec"
+	"gitlab.com/yawning/secp256k1-voi/secec/bitcoin"
 	"gitlab.com/yawning/secp256k1-voi/secec/h2c"
 )
 
@@ -118,3 +119,11 @@ func deepImages(sh *shared) map[string][]byte {
 	}
 	return m
 }
+
+func deepSignSchnorr(aux *[32]byte, sk *bitcoin.SchnorrPrivateKey, msg []byte) ([]byte, error) {
+	return bitcoin.VerifSignSchnorr(aux, sk, msg)
+}
+func deepVerifySchnorrSelf(sk *bitcoin.SchnorrPrivateKey, msg, sig []byte) bool {
+	return bitcoin.VerifVerifySchnorrSelf(sk, msg, sig)
+}
+func deepSchnorrD(sk *bitcoin.SchnorrPrivateKey) []byte { return bitcoin.VerifSchnorrD(sk) }
